@@ -284,7 +284,11 @@ func (s *ledgerSnap) checkInvariants(env *Env, hist []string, tolerateOrphans bo
 			viol("C02.shares", "op-share-sum", fmt.Sprintf("pool %s operatorShare %s != sum of associated delegators' shares %s", pk, p.opShare, self))
 		}
 		if p.amount.Sign() == 0 && p.totalShare.Sign() != 0 {
-			viol("C02.shares", "zero-amount-shares", fmt.Sprintf("pool %s has amount 0 but shares %s", pk, p.totalShare))
+			sig := "zero-amount-shares"
+			if pk == ledgerF02aPool { // the directed scenario of finding F-02a (see directedZeroPool)
+				sig = "F-02a:zero-amount-shares"
+			}
+			viol("C02.shares", sig, fmt.Sprintf("pool %s has amount 0 but shares %s", pk, p.totalShare))
 		}
 		lst := s.slist[pk]
 		seen := map[string]bool{}
@@ -609,6 +613,10 @@ func domLedger(env *Env) error {
 		if c.Halted != "" {
 			env.Violate("C11.halt", "halt:"+strings.SplitN(c.Halted, ":", 2)[0], "block processing panicked: "+c.Halted, w.hist)
 		}
+		if hi == 0 && c.Halted == "" && env.Str("f02a", "0") == "1" {
+			w.directedZeroPool()
+		}
+		ledgerF02aPool = ""
 		if hi == 0 && c.Halted == "" && env.Str("f03a", "0") == "1" {
 			w.directedNonceCollision()
 		}
@@ -1277,3 +1285,128 @@ type slashEvent struct {
 }
 
 func envBool(e *Env, k string) bool { return e.Str(k, "") == "1" }
+
+// pool key (operator/asset) of the directed scenario of finding F-02a while it runs
+var ledgerF02aPool string
+
+// directedZeroPool replays finding F-02a on the real keepers: TokensFromShares computes
+// share*amount/totalShare with LegacyDec.Quo (banker's rounding at 18 decimals) and truncates only
+// afterwards, so a delegator that holds all but a 10^-19 fraction of a pool's shares and is NOT the
+// last one is paid the pool's whole amount: the pool is left with amount 0 and the other delegator's
+// shares > 0. From then on every delegation to the pool and the remaining delegator's undelegation
+// fail with ErrDivisorIsZero. (Model: C02_regression_history; repaired in the repo, the scenario stays as a regression.)
+func (w *ledgerWorld) directedZeroPool() {
+	c := w.c
+	opA := NewActor(c.Cfg.Seed, "f02a-operator", 0)
+	if err := c.CachedDo(func(ctx sdk.Context) error {
+		return c.App.OperatorKeeper.SetOperatorInfo(ctx, opA.Acc.String(), &operatortypes.OperatorInfo{
+			EarningsAddr: opA.Acc.String(), OperatorMetaInfo: "f02a", Commission: stakingtypes.NewCommission(sdk.ZeroDec(), sdk.ZeroDec(), sdk.ZeroDec())})
+	}); err != nil {
+		w.env.Note("f02a-setup-failed: " + err.Error())
+		return
+	}
+	op := opA.Acc
+	w.emit("ledger.operator "+op.String(), "ok")
+	asset, aaddr := c.AssetIDs[0], w.assetAddr(0)
+	ledgerF02aPool = op.String() + "/" + asset
+	stA, stB, stC := NewActor(c.Cfg.Seed, "f02a-staker", 0), NewActor(c.Cfg.Seed, "f02a-staker", 1), NewActor(c.Cfg.Seed, "f02a-staker", 2)
+	big8e18, _ := new(big.Int).SetString("8000000000000000000", 10)
+	amtB := sdkmath.NewIntFromBigInt(new(big.Int).Sub(big8e18, big.NewInt(1)))
+	run := func(name, opLine string, f func(ctx sdk.Context) error) error {
+		err := c.CachedDo(f)
+		after := w.snapAndCheck()
+		after.checkInvariants(w.env, w.hist, w.orphans)
+		res := "ok"
+		if err != nil {
+			res = "rej"
+		}
+		w.emit(opLine, res+" "+after.dump())
+		w.env.Outcome("f02a." + name + "." + ledgerErrClass(err))
+		return err
+	}
+	deposit := func(st Actor, x sdkmath.Int) error {
+		sid := StakerIDOf(c.LzID, st.Eth)
+		return run("deposit", fmt.Sprintf("ledger.deposit %s %s %s", sid, asset, x), func(ctx sdk.Context) error {
+			return c.App.AssetsKeeper.PerformDepositOrWithdraw(ctx, &assetskeeper.DepositWithdrawParams{
+				ClientChainLzID: c.LzID, Action: assetstypes.DepositLST, StakerAddress: st.Eth.Bytes(), AssetsAddress: aaddr, OpAmount: x})
+		})
+	}
+	delegate := func(st Actor, x sdkmath.Int) error {
+		sid := StakerIDOf(c.LzID, st.Eth)
+		return run("delegate", fmt.Sprintf("ledger.delegate %s %s %s %s", sid, asset, op, x), func(ctx sdk.Context) error {
+			return c.App.DelegationKeeper.DelegateTo(ctx, &delegationtypes.DelegationOrUndelegationParams{
+				ClientChainID: c.LzID, AssetsAddress: aaddr, OperatorAddress: op, StakerAddress: st.Eth.Bytes(), OpAmount: x})
+		})
+	}
+	undelegate := func(st Actor, x sdkmath.Int, nonce uint64) error {
+		sid := StakerIDOf(c.LzID, st.Eth)
+		hash := common.BytesToHash(detBytes(78, "f02a", int(nonce)))
+		err := c.CachedDo(func(ctx sdk.Context) error {
+			return c.App.DelegationKeeper.UndelegateFrom(ctx, &delegationtypes.DelegationOrUndelegationParams{
+				ClientChainID: c.LzID, AssetsAddress: aaddr, OperatorAddress: op, StakerAddress: st.Eth.Bytes(), OpAmount: x,
+				LzNonce: nonce, TxHash: hash})
+		})
+		after := w.snapAndCheck()
+		after.checkInvariants(w.env, w.hist, w.orphans)
+		res := "ok"
+		if err != nil {
+			res = "rej"
+		}
+		w.emit(fmt.Sprintf("ledger.undelegate %s %s %s %s %d %s %d", sid, asset, op, x, nonce, hash.String(), 0), res+" "+after.dump())
+		w.env.Outcome("f02a.undelegate." + ledgerErrClass(err))
+		return err
+	}
+	// slash the pool to `want` base units through the real SlashAssets, with power x factor chosen so
+	// that the effective proportion is exactly `target`
+	slash := func(target string, want int64) bool {
+		info, verr := c.App.OperatorKeeper.CalculateUSDValueForOperator(c.Ctx, true, op.String(), nil, nil, nil)
+		if verr != nil || !info.StakingAndWaitUnbonding.IsPositive() {
+			return false
+		}
+		tp := sdkmath.LegacyMustNewDecFromStr(target)
+		// power = value scaled to an integer, factor = target / scale
+		var power int64
+		var factor sdkmath.LegacyDec
+		if info.StakingAndWaitUnbonding.GTE(sdkmath.LegacyOneDec()) {
+			power, factor = info.StakingAndWaitUnbonding.TruncateInt64(), tp
+		} else {
+			power, factor = 1, tp.Mul(info.StakingAndWaitUnbonding)
+		}
+		var exec *operatortypes.SlashExecutionInfo
+		err := c.CachedDo(func(ctx sdk.Context) error {
+			var e error
+			exec, e = c.App.OperatorKeeper.SlashAssets(ctx, &operatortypes.SlashInputInfo{IsDogFood: true, Power: power, Operator: op,
+				AVSAddr: c.AVSAddr, SlashID: "f02a-" + target, SlashEventHeight: c.Header.Height, SlashProportion: factor})
+			return e
+		})
+		after := w.snapAndCheck()
+		after.checkInvariants(w.env, w.hist, w.orphans)
+		if err != nil || exec == nil {
+			w.env.Outcome("f02a.slash." + ledgerErrClass(err))
+			return false
+		}
+		w.emit(fmt.Sprintf("ledger.slash %s %d %s", op, c.Header.Height, exec.SlashProportion.BigInt()), "ok "+after.dump())
+		w.env.Outcome("f02a.slash.ok")
+		return after.pools[ledgerF02aPool].amount != nil && after.pools[ledgerF02aPool].amount.Cmp(big.NewInt(want)) == 0
+	}
+	if deposit(stA, sdkmath.NewInt(1)) != nil || deposit(stB, amtB) != nil || deposit(stC, sdkmath.NewInt(5)) != nil ||
+		delegate(stA, sdkmath.NewInt(1)) != nil || delegate(stB, amtB) != nil {
+		w.env.Note("f02a-setup-failed: deposit/delegate refused")
+		return
+	}
+	if !slash("0.999999999999999999", 8) || !slash("0.75", 2) {
+		w.env.Note("f02a-setup-failed: the two slashes did not leave 2 base units")
+		return
+	}
+	w.env.Eval("C02.directed-zero-pool")
+	// B (not the last delegator: A still holds 10^18 raw shares) asks for 1 base unit; the tolerance rule
+	// turns that into all of B's shares, and TokensFromShares rounds 2 - 2.5e-19 up to 2 = the whole pool
+	if undelegate(stB, sdkmath.NewInt(1), 1<<41) != nil {
+		w.env.Note("f02a: B's undelegation was refused")
+		return
+	}
+	// consequences on the real code: the pool refuses every new delegation, and A cannot leave
+	errC := delegate(stC, sdkmath.NewInt(5))
+	errA := undelegate(stA, sdkmath.NewInt(1), 1<<41+1)
+	w.env.Outcome(fmt.Sprintf("f02a.after:delegate=%s,undelegate=%s", ledgerErrClass(errC), ledgerErrClass(errA)))
+}
